@@ -239,7 +239,9 @@ def check_detection(run, bp):
             run.fail({"subcheck": "detect:get_theory", "missing": miss[0]}, case,
                      "get_theory lacks %r for %s\n theory: %s" % (miss, show(b), th))
         for flag, sort in ((th.integer_difference, INT), (th.real_difference, REAL)):
-            bad = outside_difference_logic(b, sort) if flag else None
+            # (the flag of a theory that is not linear labels nothing: no logic is both, and such a theory is below no
+            #  difference logic in the order - it is never handed to one)
+            bad = outside_difference_logic(b, sort) if (flag and th.linear) else None
             if bad is not None:
                 run.cls("difference-logic-judged")
                 run.fail({"subcheck": "detect:difference-logic"}, case,
